@@ -572,4 +572,62 @@ def groupMoves (names : List String) (T : Q) (demes : List Demes.Ms.BDeme) (puls
     let ancs ← (bAncestors d).mapM (popId names)
     pure (bornRows me ancs (bProportions d) L)) L1
 
+/-! ## the fragment `Tame'` without its time-0 clause
+
+`from_ms` rejects every command with an `-ej` at time 0, and every command in which an `-es` at time 0
+moves lineages (`Theorems/C08.lean` §10); so the third clause of `GoodGroup` follows from the first
+two and the acceptance by `from_ms`, except for the harmless `-es 0 i 1`. -/
+
+/-- `GoodGroup` without "a group with `-es`/`-ej` is not at time 0" -/
+def GoodGroup12 (n : Nat) (cmds : List Cmd) : Bool :=
+  noSourceAfterTarget (groupOps n cmds)
+  && cmds.all (fun c => match c with | .split _ _ p => decide (0 < p) && decide (p ≤ 1) | _ => true)
+
+def goodGroups12 : Nat → List (List Cmd) → Bool
+  | _, [] => true
+  | n, g :: rest => GoodGroup12 n g && goodGroups12 (n + (g.filter isSplitC).length) rest
+
+/-- every time group satisfies the first two clauses of `GoodGroup` -/
+def Tame'' (pr : Parsed) : Bool := goodGroups12 pr.npop (cmdGroups pr)
+
+/-! ## a wider fragment: a population may be moved on after it has received a join
+
+`GoodGroup` forbids every move whose source was the target of an earlier move of the group.  `from_ms`
+also converts correctly a group in which a population `b` is split or joined after another population
+was joined **into** it (`-ej a b … -es b p`, `-ej a b … -ej b c`): the deme of a joined population gets
+its whole row of the lineage-movement matrix as its ancestry.  What stays excluded: a population is
+split or joined after it received lineages by an `-es` (F5, F21), and a chain of joins `a → b → c`
+followed by a move out of `c` (F22).  `GoodGroup2` has no clause about time 0. -/
+
+/-- a population is the source of a move after it was the target of an earlier move only if the
+earlier move is a join (`q = 1`) -/
+def sourceAfterJoinOnly : List (Nat × Nat × Q) → Bool
+  | [] => true
+  | o :: r => r.all (fun o' => decide (o.2.1 ≠ o'.1) || decide (o.2.2 = 1)) && sourceAfterJoinOnly r
+
+/-- for the earlier move `x`: a later join `y` of the target of `x` is not followed by a move out of the
+target of `y` -/
+def chainAux (x : Nat × Nat × Q) : List (Nat × Nat × Q) → Bool
+  | [] => true
+  | y :: r => (decide (x.2.1 ≠ y.1) || decide (y.2.2 ≠ 1) || r.all (fun z => decide (z.1 ≠ y.2.1))) && chainAux x r
+
+/-- a chain of joins `a → b`, `b → c` ends at `c`: no later move has `c` as its source -/
+def chainsEnd : List (Nat × Nat × Q) → Bool
+  | [] => true
+  | x :: r => chainAux x r && chainsEnd r
+
+/-- a time group (options of one time, command order; `n` populations exist before it) of the wider
+fragment: the moves `groupOps` reads off it satisfy `sourceAfterJoinOnly` and `chainsEnd`, and every `-es`
+has `0 < p ≤ 1` -/
+def GoodGroup2 (n : Nat) (cmds : List Cmd) : Bool :=
+  sourceAfterJoinOnly (groupOps n cmds) && chainsEnd (groupOps n cmds)
+  && cmds.all (fun c => match c with | .split _ _ p => decide (0 < p) && decide (p ≤ 1) | _ => true)
+
+def goodGroups2 : Nat → List (List Cmd) → Bool
+  | _, [] => true
+  | n, g :: rest => GoodGroup2 n g && goodGroups2 (n + (g.filter isSplitC).length) rest
+
+/-- the wider fragment: every time group is a `GoodGroup2` -/
+def Tame2 (pr : Parsed) : Bool := goodGroups2 pr.npop (cmdGroups pr)
+
 end Demes.Spec.C08
